@@ -14,13 +14,18 @@ Depth1 == { Opt(x) : x \in L \cup {Leaf("S")} } \cup { Vec(x) : x \in L } \cup {
 Depth2B == { Opt(Opt(b)) : b \in BL } \cup { Opt(Res(b, e)) : b \in BL, e \in OL } \cup { Poll(Opt(Leaf("B"))) }
            \cup { Poll(Res(b, e)) : b \in BL, e \in OL } \cup { Vec(Opt(Leaf("B"))) } \cup { Vec(Res(Leaf("B"), e)) : e \in OL }
 Depth2O == { Opt(Vec(Leaf("O"))), Res(Opt(Leaf("O")), Leaf("O")), Vec(Tup(<<Leaf("O"), Leaf("O")>>)), Opt(Res(Leaf("T"), Leaf("O"))), Poll(Opt(Leaf("T"))) }
+\* 1-tuples and nesting depth 3
+\* (measured: a Result whose Ok type is itself a composite with a borrow, e.g. Result<Option<&T>, E>, is not accepted
+\*  by the macro -- the kind of the last type argument overwrites the Deep kind found for the first)
+Deeper == { Tup(<<Leaf("B")>>), Tup(<<Leaf("O")>>), Opt(Opt(Res(Leaf("B"), Leaf("O")))), Poll(Opt(Res(Leaf("B"), Leaf("T")))), Vec(Opt(Res(Leaf("Bs"), Leaf("O")))),
+            Opt(Vec(Opt(Leaf("B")))), Vec(Vec(Opt(Leaf("B")))) }
 SliceTypes == { Opt(Leaf("Bl")), Res(Leaf("Bl"), Leaf("O")), Tup(<<Leaf("Bl"), Leaf("O")>>), Vec(Leaf("Bl")), Opt(Res(Leaf("Bl"), Leaf("T"))) }
-TypesQ == Depth0 \cup SliceTypes \cup { Opt(Leaf("B")), Opt(Leaf("O")), Opt(Leaf("T")), Opt(Leaf("S")), Vec(Leaf("B")), Vec(Leaf("O")), Poll(Leaf("O")),
+TypesQ == Depth0 \cup SliceTypes \cup { Tup(<<Leaf("B")>>), Opt(Opt(Res(Leaf("B"), Leaf("O")))) } \cup { Opt(Leaf("B")), Opt(Leaf("O")), Opt(Leaf("T")), Opt(Leaf("S")), Vec(Leaf("B")), Vec(Leaf("O")), Poll(Leaf("O")),
                         Res(Leaf("B"), Leaf("O")), Res(Leaf("B"), Leaf("T")), Res(Leaf("O"), Leaf("T")), Res(Leaf("Bs"), Leaf("O")),
                         Tup(<<Leaf("B"), Leaf("O")>>), Tup(<<Leaf("B"), Leaf("T")>>), Tup(<<Leaf("O"), Leaf("O")>>), Tup(<<Leaf("B"), Leaf("O"), Leaf("Bs")>>),
                         Opt(Res(Leaf("B"), Leaf("T"))), Opt(Res(Leaf("Bs"), Leaf("O"))), Poll(Res(Leaf("B"), Leaf("O"))), Poll(Res(Leaf("B"), Leaf("T"))),
                         Vec(Res(Leaf("B"), Leaf("O"))), Vec(Opt(Leaf("B"))), Opt(Opt(Leaf("B"))), Poll(Opt(Leaf("B"))), Opt(Vec(Leaf("O"))) }
-TypesT == Depth0 \cup Depth1 \cup Depth2B \cup Depth2O \cup SliceTypes
+TypesT == Depth0 \cup Depth1 \cup Depth2B \cup Depth2O \cup SliceTypes \cup Deeper
 Paths == {"once", "multi"}
 CasesOf(ty) == UNION { { [ty |-> ty, path |-> p, v |-> v] : v \in Values(ty, MaxLen) } : p \in { q \in Paths : PathOK(ty, q) } }
 Cases == UNION { CasesOf(ty) : ty \in TypeFam }
